@@ -27,6 +27,8 @@ META = {
     'trusted_base': ['sa/specs/opp.json', 'sa.interp/layout/canon/compare/spec'],
     'exhaustive': True,
 }
+
+META['explanation'] += ' ' + 'R5: protocol constants, and the LDAP StartTLS request parser compares the request name with the OID its composer writes (class constants resolved). R8: explicit rejections against the reviewed table.'
 MODULES = {'cryptoparser.tls.mysql', 'cryptoparser.tls.rdp', 'cryptoparser.tls.openvpn', 'cryptoparser.tls.postgresql', 'cryptoparser.tls.ldap'}
 HERE = os.path.dirname(os.path.dirname(os.path.abspath(__file__)))
 
